@@ -40,7 +40,7 @@ where
   pub(crate) iss: Cow<'presentation, Url>,
 
   /// Represents the issuanceDate encoded as a UNIX timestamp.
-  #[serde(flatten)]
+  #[serde(flatten, deserialize_with = "deserialize_issuance_date")]
   pub(crate) issuance_date: Option<IssuanceDateClaims>,
 
   /// Represents the id property of the credential.
@@ -54,6 +54,22 @@ where
 
   #[serde(flatten, skip_serializing_if = "Option::is_none")]
   pub(crate) custom: Option<Object>,
+}
+
+/// Deserializes the flattened, optional `iat` / `nbf` claims.
+///
+/// A flattened `Option` turns every error of the inner value into `None`: an `nbf` or `iat` that is present but is not
+/// an integer would silently switch the issuance date (and its validation) off instead of being reported.
+fn deserialize_issuance_date<'de, D>(deserializer: D) -> std::result::Result<Option<IssuanceDateClaims>, D::Error>
+where
+  D: serde::Deserializer<'de>,
+{
+  let claims: IssuanceDateClaims = IssuanceDateClaims::deserialize(deserializer)?;
+  Ok(if claims.iat.is_none() && claims.nbf.is_none() {
+    None
+  } else {
+    Some(claims)
+  })
 }
 
 impl<'presentation, CRED, T> PresentationJwtClaims<'presentation, CRED, T>
